@@ -6,9 +6,11 @@ CONSTANTS
   HdrOf <- MCHdrOf
   Pooled = FALSE
   SharedWrite = TRUE
+  UnsyncInit = FALSE
 INVARIANTS
   C17_HandlerIsolation
   C17_ClientIsolation
+  C17_NoDataRace
 PROPERTIES
   C17_ValidatorOnce
   C17_AllComplete
